@@ -205,10 +205,14 @@ func (s *Service) prune(ctx context.Context) {
 				failedSet[eh.Height()] = struct{}{}
 				failed++
 			} else {
-				lastPrunedHeader = eh
 				successful++
 			}
 		}
+		// every header of the batch is now either pruned or recorded as failed (and retried by
+		// retryFailed in the following cycles), so the cursor moves past the whole batch. Moving it
+		// only to the last success made a full batch whose prunes fail find the very same headers
+		// again and again: the cycle never ended and nothing behind that batch was ever reached.
+		lastPrunedHeader = headers[len(headers)-1]
 
 		err = s.updateCheckpoint(s.ctx, lastPrunedHeader.Height(), failedSet)
 		if err != nil {
